@@ -12,24 +12,37 @@ theorem aux_becomeFollower {n t l : Nat} {r r1 : Raft} (haux : AuxInv n r) (hle 
     (h : (Raft.becomeFollower t l).run r = .ok ((), r1)) : AuxInv n r1 ∧ AuxFrame r r1 := by
   obtain ⟨d, rest, _, rfl⟩ := becomeFollower_run_exact h
   have hf : AuxFrame r ({ Next.resetSt r t d rest with lead := l, state := Role.follower } : Raft) := by
-    refine ⟨hle, fun ht hl => ?_⟩
+    refine ⟨hle, fun ht hl => ?_, fun _ _ => rfl⟩
     have h1 : t = r.term := ht
     have h2 := hlead hl
     omega
   refine ⟨⟨fun hl => (by cases hl), fun m hm => (haux.self m hm).frame hf, haux.outFrom⟩, hf⟩
+
+/-- a delivered message of a lower term keeps the auxiliary invariant (the answer to a stale leader is not
+self-addressed) -/
+theorem aux_lower_term {n : Nat} {r r' : Raft} {m : Message} {e : Option StepErr} {fuel : Nat}
+    (haux : AuxInv n r) (h0 : m.term ≠ 0) (hlt : m.term < r.term) (hty : Deliverable m.typ)
+    (hfrom : m.typ = .app ∨ m.typ = .heartbeat → m.from ≠ n)
+    (h : (Raft.step (fuel + 1) m).run r = .ok (e, r')) : AuxInv n r' ∧ AuxFrame r r' := by
+  rcases lower_term_cases h0 hlt hty h with rfl | ⟨_, hk, rfl⟩
+  · exact ⟨haux, AuxFrame.refl _⟩
+  · refine ⟨⟨haux.matchLe, fun x hx => ?_, haux.outFrom⟩, ⟨Nat.le_refl _, fun _ hl => ⟨hl, Nat.le_refl _⟩, fun _ hf => hf⟩⟩
+    rcases List.mem_append.1 hx with hx | hx
+    · exact haux.self x hx
+    · rw [List.mem_singleton.1 hx]
+      intro hto
+      exact absurd hto (hfrom hk)
 
 /-- the first half of the step of a higher-term message, as a run -/
 theorem raise_term_run {val : Val} {voters : List Id} {n : Nat} {s : Spec.State} {r r' : Raft} {m : Message}
     {e : Option StepErr} {fuel : Nat}
     (hinv : RaftInv val voters n r (s.nodes n) s.msgs) (hgt : r.term < m.term) (hty : Deliverable m.typ)
     (h : (Raft.step (fuel + 1) m).run r = .ok (e, r')) :
-    ∃ r1, (Raft.becomeFollower m.term (leadOf m)).run r = .ok ((), r1) ∧
+    r' = r ∨ ∃ r1, (Raft.becomeFollower m.term (leadOf m)).run r = .ok ((), r1) ∧
       (Raft.step (fuel + 1) m).run r1 = .ok (e, r') := by
-  have hk : RaisesTerm r m := by
-    refine ⟨hgt, ?_, ?_, fun _ => Or.inr ?_⟩
-    · rcases hty with ht | ht | ht | ht | ht | ht <;> rw [ht] <;> simp
-    · rcases hty with ht | ht | ht | ht | ht | ht <;> rw [ht] <;> simp
-    · unfold inLease; rw [hinv.st.cq]; rfl
+  rcases raises_or_lease hgt hty h with hk | ⟨_, hk⟩
+  case inr => exact Or.inl hk
+  right
   obtain ⟨r1, h1, _, _, _, _, _, _, _, _, _, _, hrun⟩ :=
     Refinement.updateTerm_refines val (cfgOf voters) fuel m r r' e s n hinv.abs hk h
   exact ⟨r1, h1, hrun⟩
